@@ -99,12 +99,23 @@ def build(V, driver="Canonical", table="d", n=2, fixed=(), check=False, calc="ca
     return mc, atoms, pes, move, labels, exch
 
 
-def sc_trial(V, driver="Canonical", table="d", n=2, fixed=(), check=False, calc="caching", molecular=False, preselect=False, coin=False, nexch=None):
-    sig = f"{driver}:{table}:n={n}:fixed={fixed if isinstance(fixed, str) else list(fixed)}:check={check}:mol={molecular}:pre={preselect}"
+def sc_trial(V, driver="Canonical", table="d", n=2, fixed=(), check=False, calc="caching", molecular=False, preselect=False, coin=False, nexch=None, warm=0):
+    sig = f"{driver}:{table}:n={n}:fixed={fixed if isinstance(fixed, str) else list(fixed)}:check={check}:mol={molecular}:pre={preselect}" + (f":after-{warm}-earlier-trial(s)" if warm else "")
     mc, atoms, pes, move, labels, exch = build(V, driver, table, n, fixed, check, calc, molecular, preselect, coin, nexch)
     # base case of the induction: the invariant holds before the first trial
     b0 = bookkeeping(mc) if not preselect else []
     V.prove(not b0, "invariant-initially", info=sig + ":" + ";".join(b0))
+    for _ in range(warm):
+        # earlier trials of any outcome: state the bookkeeping invariant does not name (anything a trial may leave
+        # behind in the context or the moves) must not change what a later rejection restores
+        try:
+            _, v0 = mcsim.run_trial(mc)
+        except (symx.PathAbort, symx.BoundHit, symx.Unsupported, symx.ReplayMismatch):
+            raise
+        except Exception as ex:  # noqa: BLE001
+            V.reach("raised:" + type(ex).__name__)
+            return
+        V.reach("earlier-" + {None: "failed", False: "rejected", True: "accepted"}[None if v0 is None else bool(v0)])
     snap = mcsim.snapshot(V, atoms)
     lab_snap = [(np.array(m.labels).copy(), np.array(m.unique_labels).copy()) for st in mc.moves.values() for m in _moves_of(st.move) if hasattr(m, "labels")]
     nexch0 = getattr(mc.context, "number_of_exchange_particles", None)
@@ -170,7 +181,15 @@ def _plan(tier):
     P.append(("trial", dict(driver="GrandCanonical", table="swap", n=2, fixed=(), check=False, coin=True), R))
     P.append(("trial", dict(driver="GrandCanonical", table="d", n=2, fixed=(), check=False), R))
     P.append(("trial", dict(driver="GrandCanonical", table="e", n=2, fixed=(), check=False, preselect=True), R))
+    # two-trial histories (an accepted, rejected or failed trial first)
+    P.append(("trial", dict(driver="GrandCanonical", table="e", n=2, fixed=(1,), check=False, coin=True, warm=1), R + ("earlier-accepted", "earlier-rejected")))
+    P.append(("trial", dict(driver="Canonical", table="d", n=2, fixed=(0,), check=True, warm=1), R + ("failed", "earlier-accepted", "earlier-rejected", "earlier-failed")))
+    P.append(("trial", dict(driver="Isobaric", table="cell", n=1, fixed=(), check=False, coin=True, warm=1), R + ("earlier-accepted", "earlier-rejected")))
     if not q:
+        P.append(("trial", dict(driver="GrandCanonical", table="e", n=3, fixed=(2,), check=False, warm=1), R + ("earlier-accepted", "earlier-rejected")))
+        P.append(("trial", dict(driver="GrandCanonical", table="e+e", n=2, fixed=(1,), check=True, coin=True, warm=1), R + ("failed", "earlier-accepted")))
+        P.append(("trial", dict(driver="HamiltonianCanonical", table="h", n=1, fixed=(), check=True, warm=1), R + ("failed", "earlier-accepted", "earlier-failed")))
+        P.append(("trial", dict(driver="Isobaric", table="cell", n=2, fixed=(), check=True, warm=1), R + ("failed", "earlier-accepted", "earlier-rejected", "earlier-failed")))
         P.append(("trial", dict(driver="GrandCanonical", table="e2", n=3, fixed=(0,), check=True, coin=True), R))
         P.append(("trial", dict(driver="Canonical", table="d2", n=3, fixed=(2,), check=True), R + ("failed",)))
         P.append(("trial", dict(driver="Isotension", table="cell", n=2, fixed=(0,), check=True), R + ("failed",)))
@@ -184,7 +203,7 @@ def run(rep: Report):
     tier = rep.tier
     opts = {"prove_timeout_ms": 10000 if tier == "quick" else 30000, "fork_timeout_ms": 2000, "seed": rep.seed, "scenario_wall_s": 240 if tier == "quick" else 1200}
     run_plan(rep, _plan(tier), SCENARIOS, opts)
-    rep.bounds = {"atoms": "2 (quick) / 3 (thorough)", "labels": "every labeling in [-1,1]^n (n<=2) / [-1,2]^n, plus a diatomic-molecule labeling", "trials": "1 (inductive step from an arbitrary validated state)", "user check": "max_attempts=2, every verdict sequence", "drivers": "Canonical, HamiltonianCanonical, Isobaric, Isotension, GrandCanonical", "tables": "d, d*2, d+d, cell, shape, d+cell, e, e*2, e+e, e+d, h; pre-selected targets"}
+    rep.bounds = {"atoms": "2 (quick) / 3 (thorough)", "labels": "every labeling in [-1,1]^n (n<=2) / [-1,2]^n, plus a diatomic-molecule labeling", "trials": "1 (inductive step from an arbitrary validated state); 2-trial histories (any first outcome) for exchange+FixAtoms, displacement+FixAtoms+veto, cell+veto", "user check": "max_attempts=2, every verdict sequence", "drivers": "Canonical, HamiltonianCanonical, Isobaric, Isotension, GrandCanonical", "tables": "d, d*2, d+d, cell, shape, d+cell, e, e*2, e+e, e+d, h; pre-selected targets"}
     rep.assumptions = ["bit-for-bit = identical z3 terms (a restored array must be a copy of what was saved, not an arithmetic reconstruction)", "potential energy = uninterpreted function of the configuration; thermodynamic parameters concrete", "calculator contract: ase Calculator result caching (quick) / + stateless, neighbour-list models (thorough)"]
     rep.stubs = ["SymAtoms (ase.Atoms on object arrays)", "SymRNG", "ModelCalc over an uninterpreted PES", "symbolic check_move verdicts", "CoinCriteria for composite exchange tables (the shipped criteria has no formula for |delta|>1)"]
     rep.outside = ["constraints other than FixAtoms on exchange drivers (ASE refuses deletion with them)", "user check_move with side effects", "more than one trial directly (covered inductively through the invariant)"]
